@@ -118,7 +118,8 @@ Params(f) ==
     [] f = "Cog13" -> [geometry |-> Geo, gamma |-> Gam, rho0 |-> Rho, alpha |-> Pick({<<2, 1>>, <<-3, 2>>}, {<<-1, 1>>}), beta |-> Pick({<<1, 1>>, <<5, 2>>}, {<<2, 1>>}), lambda0 |-> Pick({<<1, 10>>, <<3, 1>>}, {}), Gamma |-> BigG]
     [] f = "Cog14" -> [geometry |-> {2, 3}, gamma |-> Gam, rho0 |-> Rho, alpha |-> Pick({<<2, 1>>, <<-3, 2>>}, {<<-1, 1>>}), beta |-> Pick({<<1, 1>>, <<5, 2>>}, {<<2, 1>>}), lambda0 |-> Pick({<<1, 10>>, <<3, 1>>}, {}), Gamma |-> BigG]
     [] f = "Cog16" -> [geometry |-> {2, 3}, gamma |-> Gam, u0 |-> UPos, b |-> Pick({<<6, 5>>, <<1, 2>>}, {<<3, 4>>}), lambda0 |-> Pick({<<1, 10>>, <<3, 1>>}, {}), Gamma |-> BigG]
-    [] f = "Cog17" -> [geometry |-> Geo, gamma |-> Gam, alpha |-> Pick({<<2, 1>>, <<-3, 2>>}, {<<-1, 1>>}), beta |-> Pick({<<1, 1>>, <<5, 2>>}, {<<2, 1>>}), lambda0 |-> Pick({<<1, 10>>, <<3, 1>>}, {}), Gamma |-> BigG]
+    \* Cog17: of these exponents only alpha = -3 gives T0 > 0 and a real rho0 (Defined)
+    [] f = "Cog17" -> [geometry |-> Geo, gamma |-> Gam, alpha |-> Pick({<<2, 1>>, <<-3, 1>>}, {<<-3, 2>>, <<-1, 1>>}), beta |-> Pick({<<1, 1>>, <<5, 2>>}, {<<2, 1>>}), lambda0 |-> Pick({<<1, 10>>, <<3, 1>>}, {}), Gamma |-> BigG]
     [] f = "Cog18" -> [geometry |-> Geo, alpha |-> Pick({<<2, 1>>, <<-3, 2>>}, {<<-1, 1>>}), beta |-> Pick({<<1, 1>>, <<5, 2>>}, {<<2, 1>>}), rho0 |-> Rho, tau |-> Pick({<<5, 4>>, <<3, 1>>}, {<<2, 1>>}), Gamma |-> BigG]
     [] f = "Cog19" -> [geometry |-> Geo, gamma |-> Gam, rho0 |-> Rho, u0 |-> UNeg, Gamma |-> BigG]
     [] f = "Cog20" -> [geometry |-> Geo, gamma |-> Gam, rho0 |-> Rho, u0 |-> Pick({<<23, 10>>, <<-1, 1>>}, {<<3, 4>>}), a |-> Pick({<<3, 10>>, <<-1, 2>>}, {<<1, 10>>}), Gamma |-> BigG]
